@@ -47,7 +47,7 @@ def props_of(rep, rec=None):
             # the endpoint trapped although it had to answer: also a failure of what that endpoint serves
             ep = tag[len("gate.answer."):]
             out |= {"get_utxos": {"C01", "C04", "C06", "C02"}, "get_balance": {"C05", "C02"},
-                    "get_block_headers": {"C07", "C02"}, "get_current_fee_percentiles": {"C15", "C02"}}.get(ep, set())
+                    "get_block_headers": {"C07", "C02"}, "get_current_fee_percentiles": {"C15", "C02"}, "get_blockchain_info": {"C02"}, "get_config": {"C09"}}.get(ep, set())
             if rep.get("paused"):
                 out.add("C08")
     elif tag.startswith("metrics."):
